@@ -377,10 +377,10 @@ pub fn run(args: &Args, report: &mut Report) {
         return;
     }
     let seed = args.seed ^ 0xC09;
-    let n = report.size(4800, 120_000);
+    let n = report.size(4800, 800_000);
     crate::report::par_run(report, n, |i, rep| run_cfg(rep, &gen_cfg(seed, i), false));
     // the same clause for the Adam method: the replay of C07's chain-level Adam monitor (asymmetric statistic before,
     // symmetric one inside the final window)
-    let n_adam = report.size(640, 12_000);
+    let n_adam = report.size(640, 100_000);
     crate::report::par_run(report, n_adam, |i, rep| crate::c07::adam_chain_case(rep, seed, i, "C09"));
 }
